@@ -430,6 +430,12 @@ def sequential_part(prop, tier, seed, res):
             f, st = gen_cases(k, sd, n, maxops, rundir)
             files.append(f)
             stats_all.setdefault(KINDS[k], []).append(st)
+        if tier == "thorough":
+            fx = os.path.join(rundir, "%s-exhaustive.cases" % KINDS[k])
+            rcx, ox, ex_ = sh([sys.executable, os.path.join(ROOT, "gen", "generate.py"), "--kind", KINDS[k], "--exhaustive", "--out", fx, "--stats", fx + ".stats"])
+            if rcx == 0:
+                files.append(fx)
+                res["extra"].setdefault("exhaustive_short_sequences", {})[KINDS[k]] = json.load(open(fx + ".stats"))["exhaustive_cases"]
         for f in files:
             jobs.append((k, f, False))
             if san:
